@@ -1,4 +1,4 @@
-CONSTANTS MaxOps = 1000000  MaxPrompt = 0  KVModes = {TRUE, FALSE}  SampledToks = {}
+CONSTANTS MaxOps = 1000000  PromptLens = {}  KVModes = {TRUE, FALSE}  SampledToks = {}
 INIT TInit
 NEXT TNext
 INVARIANT Report
